@@ -58,12 +58,13 @@ func runEtxQ(seed uint64, n int, outDir string, replay string) {
 				return etx
 			}
 			nops := 5 + rc.Intn(60)
-			if rc.Chance(5) {
-				nops = 300 // index growth past one byte
+			long := rc.Chance(3) || c == 1
+			if long {
+				nops = 520 // index growth past one byte: well over 256 pushes, while the oldest index still fits one byte
 			}
 			for i := 0; i < nops; i++ {
 				switch x := rc.Intn(100); {
-				case x < 35 || nops == 300 && x < 70:
+				case x < 35 || long && x < 70:
 					etx := mk()
 					data, _ := rlp.EncodeToBytes(etx)
 					if err := sdb.PushETX(etx); err != nil {
